@@ -163,6 +163,59 @@ class CutFile:
         return self.pos
 
 
+class LogFile:
+    """thin logging proxy around a real file object (BytesIO, buffered / unbuffered disk file):
+    forwards read, records what was returned, cuts off a runaway consumer"""
+
+    def __init__(self, inner, size):
+        self.inner = inner
+        self.log = []
+        self.limit = size + 16
+
+    def read(self, *a):
+        if len(self.log) >= self.limit:
+            raise RuntimeError("runaway consumer: more reads than bytes")
+        out = self.inner.read(*a)
+        self.log.append(out)
+        return out
+
+    def tell(self):
+        return self.inner.tell()
+
+    @property
+    def rest(self):
+        return self.inner.read()
+
+
+_SCRATCH = [None]
+
+
+def make_fobj(case, content):
+    """the file object of a reads / drive case: 'cut' (default; short reads imposed), 'bytesio',
+    'file' (buffered disk file), 'rawfile' (unbuffered disk file).  Only 'cut' has a cut oracle."""
+    import io
+    import tempfile
+
+    kind = case.get("fobj", "cut")
+    if kind == "cut":
+        return CutFile(content, case["cuts"])
+    assert not case["cuts"], "only the cut file object takes a short-read oracle"
+    if kind == "bytesio":
+        return LogFile(io.BytesIO(content), len(content))
+    fd, path = tempfile.mkstemp(prefix="c14-", dir=_SCRATCH[0])
+    with os.fdopen(fd, "wb") as fh:
+        fh.write(content)
+    inner = open(path, "rb") if kind == "file" else open(path, "rb", buffering=0)  # noqa: SIM115
+    os.unlink(path)
+    return LogFile(inner, len(content))
+
+
+def close_fobj(f):
+    inner = getattr(f, "inner", None)
+    if inner is not None:
+        inner.close()
+
+
 class RecHasher:
     def __init__(self, inner):
         self.inner = inner
@@ -243,7 +296,7 @@ def run_reads(case):
     from dvc_data.hashfile import hash as H
 
     content = content_of(case)
-    f = CutFile(content, case["cuts"])
+    f = make_fobj(case, content)
     obs = {"kind": "reads", "cls": None, "alg": None, "answers": []}
     with observed() as rec:
         try:
@@ -256,6 +309,8 @@ def run_reads(case):
                 if op == "q":
                     obs["answers"].append({"k": len(chunks), "digest": stream.hash_value, "total": stream.total_read,
                                            "fed": bytes(rec["hashers"][0].fed)})
+                elif op == "d":
+                    chunks.append(stream.read())  # no argument: the default n=-1
                 else:
                     chunks.append(stream.read(op))
             obs.update(status="ok", chunks=chunks, total=stream.total_read, digest=stream.hash_value)
@@ -266,6 +321,7 @@ def run_reads(case):
         obs["fed"] = bytes(rec["hashers"][0].fed) if rec["hashers"] else b""
         obs["handed"] = list(f.log)
         obs["rest"] = f.rest
+    close_fobj(f)
     return obs
 
 
@@ -274,11 +330,14 @@ def run_drive(case):
     from dvc_data.hashfile.hash import fobj_md5
 
     content = content_of(case)
-    f = CutFile(content, case["cuts"])
+    f = make_fobj(case, content)
     obs = {"kind": "drive"}
     with observed() as rec:
         try:
-            d = fobj_md5(f, chunk_size=case["chunk"], name=case["name"])
+            if case["chunk"] is None:  # the default chunk_size (2**20)
+                d = fobj_md5(f, name=case["name"])
+            else:
+                d = fobj_md5(f, chunk_size=case["chunk"], name=case["name"])
             obs.update(status="ok", digest=d)
         except AssertionError:
             obs["status"] = "assert"
@@ -294,6 +353,7 @@ def run_drive(case):
         obs["total"] = st.total_read if st is not None else None
         obs["handed"] = list(f.log)
         obs["rest"] = f.rest
+    close_fobj(f)
     return obs
 
 
@@ -345,8 +405,8 @@ def judge(case, obs):
         return [(f"C14:unexpected-exception:{obs['exc']}", f"{kind} with {name!r} raised {obs['exc']}")]
     if obs["status"] == "assert":
         legacy = is_legacy(case)
-        small = (kind == "reads" and any(n != "q" and n < 512 for n in ops_of(case))) or \
-            (kind == "drive" and case["chunk"] < 512)
+        small = (kind == "reads" and any(n != "q" and (n == "d" or n < 512) for n in ops_of(case))) or \
+            (kind == "drive" and case["chunk"] is not None and case["chunk"] < 512)
         if not (legacy and small):
             out.append(("C14:spurious-assertion", f"{kind} with {name!r} raised AssertionError although "
                         "every read size is >= 512 or the stream is not the legacy one"))
@@ -383,7 +443,7 @@ def judge(case, obs):
         if joined != content or obs["file_after"] != content:
             out.append(("C14:passthrough:bytes-lost-or-invented", "hash_file did not read exactly the file's bytes"))
     drained = kind != "reads" or (obs["rest"] == b"" and joined == content)
-    if kind == "drive" and case["chunk"] != 0 and joined != content:
+    if kind == "drive" and case["chunk"] != 0 and joined != content:  # (None = default size)
         out.append(("C14:driver:incomplete", "the chunked driver stopped before the end of the content"))
     if kind == "hashfile" and (obs.get("hname") != name or obs.get("size") != len(content)):
         out.append(("C14:hash_file:wrong-name-or-size", f"HashInfo name {obs.get('hname')!r}, size {obs.get('size')}"))
@@ -588,6 +648,8 @@ def istext_blocks(ctx):
     rng = ctx.rng
     out = [bytes([b]) for b in range(256)]
     out.append(b"")
+    # every byte value as the deciding byte of a 10-byte block with 3 non-text bytes (30% / 40% / NUL)
+    out += [b"\x80\x80\x80a\r\nbcd" + bytes([b]) for b in range(256)]
     lens = [2, 3, 4, 9, 10, 11, 19, 20, 21, 99, 100, 101, 333, 510, 511, 512, 513, 1000]
     for n in lens:
         t = (3 * n) // 10
@@ -613,6 +675,234 @@ def d2u_strings(ctx):
     for _ in range(ctx.n(40, 300)):
         out.append(gen_content(rng, rng.choice(["crlf", "mixed", "lonecr"]), rng.choice([6, 7, 20, 64, 200])))
     return out
+
+
+# ------------------------------------------------------------------------------------------
+# input-space audit (tools/COVERAGE_AUDIT.md): fixed cases that every run reaches, judged by the
+# same oracle and the same correspondence as the random ones; "dims" names what a case is for
+
+
+def audit_cases():
+    hx = bytes.hex
+    reads, drives, hfiles = [], [], []
+    text = b"line one\r\nline two\r\n"          # 20 bytes, CRLF text
+    t600 = (b"abcdefgh\r\n" * 60)                 # 600 bytes, CRLF text
+    plain_algs = ["md5", "sha256", "blake3"]
+
+    def R(name, ctor, content, ops, dims, fobj="cut", cuts=()):
+        reads.append({"kind": "reads", "name": name, "ctor": ctor, "style": "audit", "content": hx(content),
+                      "cuts": list(cuts), "ops": ops, "fobj": fobj, "dims": dims})
+
+    def D(name, content, chunk, dims, fobj="cut", cuts=()):
+        drives.append({"kind": "drive", "name": name, "style": "audit", "content": hx(content), "cuts": list(cuts),
+                       "chunk": chunk, "fobj": fobj, "dims": dims})
+
+    # ---- read-size sequences: read(0) probes at start / middle / end, read(-1), read() without an
+    # argument, size 1, size > len; each with a digest query right after the probe
+    for i, alg in enumerate(plain_algs):
+        for ctor in ("HashStreamFile", "get_hash_stream"):
+            R(alg, ctor, text, [0, "q", 7, 0, "q", 100, 0, "q"], ["read(0)@start", "read(0)@middle", "read(0)@end"])
+            R(alg, ctor, text, [1, 1, "q", -1, "q", -1], ["read(1)", "read(-1)", "read(-1)@eof"])
+            R(alg, ctor, text, ["d", "q", "d"], ["read()-no-argument"])
+            R(alg, ctor, text, [21, "q", 4096], ["read(n>len)"])
+            R(alg, ctor, b"", [0, "q", 5, "d", -1, "q"], ["content:empty", "read(0)@start"])
+    for ctor in ("Dos2UnixHashStreamFile", "get_hash_stream"):
+        R(D2U, ctor, t600, [512, "q", 512, "q", 512, "q"], ["legacy:read-after-eof", "legacy:multi-read"])
+        R(D2U, ctor, t600, [4096, "q"], ["legacy:read(n>len)"])
+        R(D2U, ctor, t600, [0], ["legacy:read(0)-refused"])
+        R(D2U, ctor, t600, [512, 0], ["legacy:read(0)-refused"])
+        R(D2U, ctor, t600, ["d"], ["legacy:read()-no-argument-refused"])
+        R(D2U, ctor, t600, [-1], ["legacy:read(-1)-refused"])
+        R(D2U, ctor, t600, [1], ["legacy:read(1)-refused"])
+        R(D2U, ctor, b"", [512, "q", 512], ["content:empty", "legacy"])
+
+    # ---- file-object kinds under both classes and the driver
+    for fobj in ("bytesio", "file", "rawfile"):
+        R("sha1", "HashStreamFile", t600, [0, 100, "q", "d", "q", 5], ["fobj:" + fobj], fobj=fobj)
+        R(D2U, "get_hash_stream", t600, [512, "q", 1024], ["fobj:" + fobj, "legacy"], fobj=fobj)
+        D("md5", t600, 64, ["fobj:" + fobj, "entry:fobj_md5(chunk_size)"], fobj=fobj)
+        D(D2U, t600, None, ["fobj:" + fobj, "entry:fobj_md5(default-chunk)"], fobj=fobj)
+    R("sha512", "HashStreamFile", t600, [100, "q", 100, -1], ["fobj:short-reading"], cuts=[1, 33])
+    D("blake3", t600, 512, ["fobj:short-reading", "entry:fobj_md5(chunk_size)"], cuts=[1, 511, 2])
+    D(D2U, t600, 600, ["fobj:short-reading", "legacy"], cuts=[5, 300])
+    for alg in plain_algs:
+        D(alg, text, None, ["entry:fobj_md5(default-chunk)"])
+        D(alg, text, 1, ["entry:fobj_md5(chunk_size)", "chunk=1"])
+        D(alg, text, 20, ["entry:fobj_md5(chunk_size)", "chunk=len"])
+        D(alg, text, -1, ["entry:fobj_md5(chunk_size)", "chunk=-1"])
+
+    # ---- the text sniff.  Every byte value as the DECIDING byte at the 30% threshold: 3 non-text
+    # bytes, 6 text bytes (with a CR LF, so the decision shows in the digest), then the byte:
+    # text byte -> 3/10 -> text; non-text byte -> 4/10 -> binary; NUL -> binary
+    for b in range(256):
+        D(D2U, b"\x80\x80\x80a\r\nbcd" + bytes([b]), 512, ["sniff:deciding-byte@30%(len 10)"])
+    # the same at the full window: 153 non-text of 512 is text (29.9%), 154 is binary (30.1%)
+    for b in (0, 1, 8, 9, 10, 11, 12, 13, 14, 27, 31, 32, 126, 127, 128, 255):
+        win = b"\x80" * 153 + (b"ab\r\n" * 90)[:358] + bytes([b])
+        D(D2U, win, 512, ["sniff:deciding-byte@30%(len 512)", "content:exactly-512"])
+        D(D2U, win + b"tail\r\n", 1024, ["sniff:deciding-byte@30%(len 512)", "content:window+tail"])
+    base = bytearray(b"abcdefgh\r\n" * 60)
+    for pos in (0, 511, 512):
+        c = bytearray(base)
+        c[pos] = 0
+        D(D2U, bytes(c), 1024, [f"sniff:NUL@{pos}"])
+    c = bytearray(b"a" * 600)
+    c[511:513] = b"\r\n"
+    D(D2U, bytes(c), 1024, ["crlf-straddles-window(one read)"])
+    D(D2U, bytes(c), 512, ["crlf-straddles-read-boundary"])
+    D("md5", bytes(c), 512, ["crlf-straddles-read-boundary"])
+    for alg in ("md5", D2U):
+        D(alg, b"a\rb\rc\r", 512, ["content:lone-CR"])
+        D(alg, b"a\nb\nc\n", 512, ["content:lone-LF"])
+        D(alg, b"\r", 512, ["content:lone-CR"])
+        D(alg, b"\n", 512, ["content:lone-LF"])
+        D(alg, b"\r\n", 512, ["content:only-CRLF"])
+        D(alg, b"", 512, ["content:empty"])
+        D(alg, (b"x" * 510) + b"\r\n", 512, ["content:exactly-512"])
+        D(alg, (b"x" * 510) + b"\r\n", 513, ["content:exactly-512"])
+        hfiles.append({"kind": "hashfile", "name": alg, "style": "audit", "content": "", "dims": ["content:empty", "entry:hash_file"]})
+        hfiles.append({"kind": "hashfile", "name": alg, "style": "audit", "content": hx((b"x" * 510) + b"\r\n"),
+                       "dims": ["content:exactly-512", "entry:hash_file"]})
+    return reads, drives, hfiles
+
+
+def op_dims(case):
+    """dimensions read off the case itself (random and fixed cases alike)"""
+    out = set(case.get("dims", []))
+    content = content_of(case) if ("content" in case or "spec" in case) else b""
+    if case["kind"] == "reads":
+        out.add("ctor:" + case.get("ctor", "get_hash_stream"))
+        out.add("fobj:" + ("short-reading" if case.get("cuts") else case.get("fobj", "cut") + ("(full reads)" if case.get("fobj", "cut") == "cut" else "")))
+        rs = [(i, o) for i, o in enumerate(ops_of(case)) if o != "q"]
+        for j, (i, o) in enumerate(rs):
+            if o == 0:
+                out.add("read(0)@" + ("start" if j == 0 else "end" if j == len(rs) - 1 else "middle"))
+            elif o == "d":
+                out.add("read()-no-argument")
+            elif o == -1:
+                out.add("read(-1)")
+            elif o == 1:
+                out.add("read(1)")
+            elif isinstance(o, int) and o > len(content):
+                out.add("read(n>len)")
+        if any(o == "q" for o in ops_of(case)[:-1]):
+            out.add("query-mid-history")
+    if case["kind"] == "drive":
+        out.add("entry:fobj_md5(default-chunk)" if case["chunk"] is None else "entry:fobj_md5(chunk_size)")
+        out.add("fobj:" + ("short-reading" if case.get("cuts") else case.get("fobj", "cut") + ("(full reads)" if case.get("fobj", "cut") == "cut" else "")))
+    if case["kind"] == "hashfile":
+        out.add("entry:hash_file")
+    if "name" in case:
+        nm = case["name"]
+        out.add("name:" + ("exact" if nm == nm.lower() else "case-variant"))
+        if nm.lower() == "blake3":
+            out.add("name:blake3")
+        if nm.lower() in FALLBACK:
+            out.add("name:only-via-hashlib.new")
+        if nm.lower() == D2U:
+            out.add("name:md5-dos2unix")
+    if not content:
+        out.add("content:empty")
+    if len(content) == 512:
+        out.add("content:exactly-512")
+    return out
+
+
+def run_entrypoints(ctx, dims):
+    """the remaining entry points and their flags, oracle only (digest against hashlib / blake3 over the
+    whole content): get_hasher for every pool name; file_md5 with / without callback and size; hash_file
+    with state absent / noop / real (first and repeated call, algorithm switched on the same path), info
+    absent / given, callback given, sizes around LargeFileHashingCallback.LARGE_FILE_SIZE claimed by
+    info; a non-local (memory) filesystem"""
+    from dvc_objects.fs.local import localfs
+    from dvc_objects.fs.memory import MemoryFileSystem
+    from fsspec.callbacks import Callback
+
+    from dvc_data.hashfile import hash as H
+    from dvc_data.hashfile.state import State, StateNoop
+
+    def note(dim, case, got, want, what):
+        dims[dim] = dims.get(dim, 0) + 1
+        ctx.case(case, nontrivial=True)
+        ctx.count("kind:entrypoint")
+        if got != want:
+            ctx.oracle_fail("C14:entrypoint:" + dim.split(":")[-1].split("(")[0],
+                            f"{what}: got {got!r}, reference {want!r}", case)
+
+    def guarded(fn):
+        try:
+            return fn()
+        except Exception as exc:  # noqa: BLE001
+            return f"raised {type(exc).__name__}: {exc}"
+
+    samples = {"crlf-text": b"line one\r\nline two\r\n" * 3, "binary": bytes(range(256)) + b"\r\n", "empty": b"",
+               "exactly-512": (b"y" * 510) + b"\r\n"}
+    # get_hasher, every pool name (as get_hash_stream / HashStreamFile pass it: lower-cased)
+    for alg in ALGS:
+        for cname, data in (("binary", samples["binary"]),):
+            def go(alg=alg, data=data):
+                h = H.get_hasher(alg)
+                h.update(data[:100])
+                h.update(data[100:])
+                return h.hexdigest()
+            note("entry:get_hasher", {"kind": "entry", "entry": "get_hasher", "name": alg, "content": cname},
+                 guarded(go), ref_digest(alg, data), f"get_hasher({alg!r}) fed in two updates")
+    root = ctx.fresh("entry")
+    names = ["md5", "sha256", "blake3", D2U] + FALLBACK[:1]
+    for cname, data in samples.items():
+        path = os.path.join(root, cname + ".bin")
+        with open(path, "wb") as fh:
+            fh.write(data)
+        for alg in names:
+            want = legacy_expected(data) if alg == D2U else ref_digest(alg, data)
+            case = {"kind": "entry", "name": alg, "content": cname}
+            note("entry:file_md5(no callback)", {**case, "entry": "file_md5"},
+                 guarded(lambda: H.file_md5(path, localfs, name=alg)), want, "file_md5")
+            note("entry:file_md5(callback)", {**case, "entry": "file_md5+callback"},
+                 guarded(lambda: H.file_md5(path, localfs, callback=Callback(), name=alg)), want, "file_md5 with a callback")
+            note("entry:file_md5(callback,size)", {**case, "entry": "file_md5+callback+size"},
+                 guarded(lambda: H.file_md5(path, localfs, callback=Callback(), name=alg, size=len(data))), want,
+                 "file_md5 with a callback and a size")
+
+            def hf(**kw):
+                return guarded(lambda: H.hash_file(path, localfs, alg, **kw)[1].value)
+            note("entry:hash_file(state absent)", {**case, "entry": "hash_file"}, hf(), want, "hash_file")
+            note("entry:hash_file(state noop)", {**case, "entry": "hash_file+StateNoop"}, hf(state=StateNoop()), want,
+                 "hash_file with StateNoop")
+            note("entry:hash_file(info given)", {**case, "entry": "hash_file+info"}, hf(info=localfs.info(path)), want,
+                 "hash_file with the caller's info")
+            note("entry:hash_file(callback given)", {**case, "entry": "hash_file+callback"}, hf(callback=Callback()), want,
+                 "hash_file with a callback")
+            big = H.LargeFileHashingCallback.LARGE_FILE_SIZE
+            for claimed in (0, big - 1, big, big + 1):
+                info = dict(localfs.info(path), size=claimed)
+                note("entry:hash_file(info.size around LARGE_FILE_SIZE)",
+                     {**case, "entry": "hash_file+info.size", "claimed_size": claimed}, hf(info=info), want,
+                     f"hash_file with info claiming size {claimed}")
+        # a real state database: first call computes and records, the repeated call must answer the same;
+        # switching the algorithm on the same path must not serve the other algorithm's record
+        st = State(root_dir=root, tmp_dir=ctx.fresh("state"))
+        try:
+            for alg in ["md5", D2U, "md5", "sha256", "sha256", D2U]:
+                want = legacy_expected(data) if alg == D2U else ref_digest(alg, data)
+                got = guarded(lambda: H.hash_file(path, localfs, alg, state=st)[1])
+                got = (got.name, got.value) if hasattr(got, "value") else got
+                note("entry:hash_file(real state, repeated / algorithm switched)",
+                     {"kind": "entry", "entry": "hash_file+State", "name": alg, "content": cname}, got, (alg, want),
+                     "hash_file with a real State")
+        finally:
+            st.close()
+        # a non-local filesystem
+        mem = MemoryFileSystem(global_store=False)
+        mpath = "/c14/" + cname
+        mem.fs.pipe_file(mpath, data)
+        for alg in names:
+            want = legacy_expected(data) if alg == D2U else ref_digest(alg, data)
+            note("fs:non-local(memory)", {"kind": "entry", "entry": "hash_file@memfs", "name": alg, "content": cname},
+                 guarded(lambda: H.hash_file(mpath, mem, alg)[1].value), want, "hash_file on a memory filesystem")
+            note("fs:non-local(memory)", {"kind": "entry", "entry": "file_md5@memfs", "name": alg, "content": cname},
+                 guarded(lambda: H.file_md5(mpath, mem, name=alg)), want, "file_md5 on a memory filesystem")
+    impl.rm_rf(root)
 
 
 # ------------------------------------------------------------------------------------------
@@ -662,10 +952,13 @@ def run(ctx):
 
     avail = sorted(H.algorithms_available)
     corpus = load_corpus()
+    _SCRATCH[0] = ctx.tmpdir()
+    a_reads, a_drives, a_hfiles = audit_cases()
+    dims = ctx.extra.setdefault("input_dimensions", {})
 
     # ---- streams with explicit read sequences, the chunked driver
-    reads = [c for c in corpus if c["kind"] == "reads"] + gen_reads(ctx, ctx.n(70, 1000))
-    drives = [c for c in corpus if c["kind"] == "drive"] + gen_drive(ctx, ctx.n(70, 1000))
+    reads = [c for c in corpus if c["kind"] == "reads"] + a_reads + gen_reads(ctx, ctx.n(70, 1000))
+    drives = [c for c in corpus if c["kind"] == "drive"] + a_drives + gen_drive(ctx, ctx.n(70, 1000))
     items_r, items_d, digests_d = [], [], []
     for case in reads:
         obs = run_reads(case)
@@ -675,13 +968,14 @@ def run(ctx):
                 "Dos2UnixHashStreamFile": "DirectDos2Unix"}[case.get("ctor", "get_hash_stream")]
         inp = "(%s, %s, %s, %s, %s)" % (ctor, cbytes(case["name"]), cbytes(content_of(case)),
                                           clist([str(c) for c in case["cuts"]]),
-                                          clist(["SQuery" if o == "q" else f"SRead {cZ(o)}" for o in ops_of(case)]))
+                                          clist(["SQuery" if o == "q" else f"SRead {cZ(-1 if o == 'd' else o)}" for o in ops_of(case)]))
         items_r.append((case, inp, vL([sel, body])))
     for case in drives:
         obs = run_drive(case)
         book(ctx, case, obs)
         sel, body = enc_obs(obs)
-        inp = "(%s, %s, %s, %s)" % (cbytes(case["name"]), cZ(case["chunk"]), cbytes(content_of(case)),
+        inp = "(%s, %s, %s, %s)" % (cbytes(case["name"]), cZ(2**20 if case["chunk"] is None else case["chunk"]),
+                                      cbytes(content_of(case)),
                                       clist([str(c) for c in case["cuts"]]))
         items_d.append((case, inp, vL([sel, body])))
         digests_d.append(obs.get("digest") if obs["status"] == "ok" else None)
@@ -692,7 +986,7 @@ def run(ctx):
 
     # ---- hash_file on real files
     items_h = []
-    hf = [c for c in corpus if c["kind"] == "hashfile"] + gen_hashfile(ctx, ctx.n(30, 300))
+    hf = [c for c in corpus if c["kind"] == "hashfile"] + a_hfiles + gen_hashfile(ctx, ctx.n(30, 300))
     for case in hf + big_cases(ctx):
         obs = run_hash_file(ctx, case)
         book(ctx, case, obs, avail)
@@ -708,6 +1002,8 @@ def run(ctx):
             inp = "(%s, %s)" % (cbytes(case["name"]), cbytes(content_of(case)))
             items_h.append((case, inp, exp))
 
+    run_entrypoints(ctx, dims)
+    ctx.extra["input_dimensions"] = dict(sorted(dims.items()))
     ctx.obligation("oracle:streams", not any(v.kind == "oracle" for v in ctx.violations),
                    f"{len(reads)} read sequences, {len(drives)} driver runs, twins and {len(hf) + 6} real files "
                    "judged against hashlib/blake3 on the whole content, literal pass-through and the counter")
@@ -715,16 +1011,16 @@ def run(ctx):
     ctx.correspond(
         "reads", IMPORTS, "ctor * list N * list N * list N * list sop",
         "fun i => let '(c, name, content, cuts, ops) := i in enc_history c name content cuts ops",
-        items_r, shard=ctx.n(12, 25))
+        items_r, shard=max(ctx.n(12, 25), -(-len(items_r) // 12)))
     ctx.correspond(
         "driver", IMPORTS, "list N * Z * list N * list N",
         "fun i => let '(name, chunk, content, cuts) := i in "
         "VL [enc_sel name; enc_drive (fobj_md5 name chunk content cuts)]",
-        items_d, shard=ctx.n(12, 25))
+        items_d, shard=max(ctx.n(12, 25), -(-len(items_d) // 12)))
     avail_term = clist([cbytes(a) for a in avail])
     ctx.correspond(
         "hash_file", IMPORTS, "list N * list N",
-        f"fun i => enc_hash_file (hash_file {avail_term} (fst i) (snd i))", items_h, shard=ctx.n(8, 20))
+        f"fun i => enc_hash_file (hash_file {avail_term} (fst i) (snd i))", items_h, shard=ctx.n(13, 25))
 
     # ---- translation validation of the generated pure functions on dense enumerations
     blocks = istext_blocks(ctx)
@@ -739,7 +1035,7 @@ def run(ctx):
         ctx.count("istext:" + ("text" if r else "binary"))
         items.append(({"kind": "istext", "block": b.hex()}, cbytes(b), vbool(r)))
         ctx.case({"kind": "istext", "block": b.hex()}, nontrivial=len(b) > 1)
-    ctx.correspond("tv_istextblock", IMPORTS, "list N", "fun b => enc_bool (istextblock b)", items, shard=60)
+    ctx.correspond("tv_istextblock", IMPORTS, "list N", "fun b => enc_bool (istextblock b)", items, shard=100)
     strs = d2u_strings(ctx)
     items = []
     for s in strs:
@@ -764,7 +1060,7 @@ def run(ctx):
         ctx.correspond(
             "md5_gallina", IMPORTS_MD5, "list N * Z * list N * list N",
             "fun i => let '(name, chunk, content, cuts) := i in md5_fobj name chunk content cuts",
-            items, shard=3)
+            items, shard=5)
     ctx.extra["algorithms_available"] = avail
     ctx.extra["algorithm_pool"] = {"from_hashlib": PLAIN, "only_via_hashlib_new": FALLBACK, "extra": ["blake3", D2U]}
 
@@ -778,6 +1074,9 @@ def book(ctx, case, obs, avail=None):
     content = content_of(case)
     ctx.case(strip(case), nontrivial(case, obs))
     ctx.count("kind:" + case["kind"])
+    dd = ctx.extra.setdefault("input_dimensions", {})
+    for d in op_dims(case):
+        dd[d] = dd.get(d, 0) + 1
     if case["kind"] == "reads":
         ctx.count("ctor:" + case.get("ctor", "get_hash_stream"))
         ctx.count("queries-in-history:%d" % sum(1 for o in ops_of(case) if o == "q"))
@@ -910,6 +1209,7 @@ def replay_case(ctx, case):
     from dvc_data.hashfile import hash as H
 
     kind = case.get("kind")
+    _SCRATCH[0] = ctx.tmpdir()
     if kind == "reads":
         obs = run_reads(case)
     elif kind == "drive":
